@@ -581,9 +581,25 @@ pub fn gen_c15(tier: Tier, seed: u64) -> Case {
             g.write_count.iter_mut().for_each(|w| w.push(0));
         }
         let n = g.r.range(2, if tier == Tier::Quick { 6 } else { 12 }) as usize;
+        let with_deleted_batch = n_names >= 2 && g.r.chance(1, 3);
         program.extend(gen_journal_program(&mut g, n, false));
+        if with_deleted_batch {
+            // a batch that was filled while keyspace `victim` existed and is committed after it
+            // was deleted: whatever the commit does with those items, the record must read back
+            let victim = (n_names - 1) as u8;
+            let mut items = vec![];
+            for ks in 0..n_names as u8 {
+                for _ in 0..g.r.range(1, 2) {
+                    let key = g.key();
+                    items.push(BItem { ks, key, kind: if g.r.chance(1, 5) { BKind::Del } else { BKind::Put(g.val()) } });
+                }
+            }
+            program.push(Op::BatchDeleteCommit { items, ks: victim });
+            let v = g.val();
+            program.push(Op::Insert { ks: 0, key: g.key(), val: v });
+        }
         fault = Fault::Damage { at: Some((u64::MAX, 0)), all_values: false };
-        class = format!("roundtrip-write{}", if g.cfg.journal_lz4 { "Lz4" } else { "None" });
+        class = format!("roundtrip-write{}{}", if g.cfg.journal_lz4 { "Lz4" } else { "None" }, if with_deleted_batch { "+batch-after-keyspace-delete" } else { "" });
     } else {
         g.sizes = vec![1, 8, 8, 24];
         let n = g.r.range(3, if tier == Tier::Quick { 6 } else { 8 }) as usize;
